@@ -4,7 +4,7 @@
    marks_ok x q t  : no node marked Infeasible has x in its closed path polytope (per input x; for an oracle sound
                      up to thin regions: every x outside the polytopes it declared infeasible)
    Paths are those of the RESULT tree (a forwarded node has a shorter path, hence a larger region). *)
-From AT Require Import Num Vec Aff PTree Cells Abs Cache Elim ElimEval ElimCache CPrune CPruneCache ElimExample.
+From AT Require Import Num Vec Aff PTree Cells Abs Cache Elim ElimEval ElimCache CPrune CPruneCache ElimExample RemoveAxesCache.
 
 (* points returned by the witness-repair heuristic lie in the polytope they were asked for: the acceptance test of
    mirror_points (normalised rows, positive factors nu_i, margin eps = 1e-10) implies membership *)
@@ -33,6 +33,11 @@ Proof. exact cprune_wit. Qed.
 Theorem C05_prune_marks : forall o tol s L x t q k, marks_ok x q t -> marks_ok x q (fst (cprune o tol s L t q k)).
 Proof. exact cprune_marks. Qed.
 
+(* remove_axes resets every state: the projected tree carries no cache, whatever the old one was *)
+Theorem C05_remove_axes_resets : forall mask tol x t q,
+  wit_ok tol q (cremove_axes mask t) /\ marks_ok x q (cremove_axes mask t).
+Proof. exact cremove_axes_cache. Qed.
+
 (* a witness that moves up with its node stays a witness: dropping path rows only enlarges the region *)
 Theorem C05_witness_monotone : forall tol t q q', (forall r, In r q' -> In r q) -> wit_ok tol q t -> wit_ok tol q' t.
 Proof. exact wit_ok_incl. Qed.
@@ -49,5 +54,6 @@ Print Assumptions C05_elim_marks.
 Print Assumptions C05_elim_sub_marks.
 Print Assumptions C05_prune_witnesses.
 Print Assumptions C05_prune_marks.
+Print Assumptions C05_remove_axes_resets.
 Print Assumptions C05_witness_monotone.
 Print Assumptions C05_nonvacuous.
